@@ -1065,6 +1065,8 @@ func schedLoop(pl *Plan, sched []Quantum, tasks []*rt.Task, sw *schedWorld, fp0 
 			}
 			timer.Reset(300 * time.Millisecond)
 			detached := false
+			cpu0, waited := cpuTime(), 0
+		wait:
 			select {
 			case ev = <-tk.Ev:
 			case <-timer.C:
@@ -1072,6 +1074,14 @@ func schedLoop(pl *Plan, sched []Quantum, tasks []*rt.Task, sw *schedWorld, fp0 
 				// must do (a lock held by a parked task, a wait group, a channel). Leave it there
 				// ("detached"), go on with the schedule; it parks at its next yield point as soon as it
 				// is released. While a task is detached the runtime identifies callers by goroutine id.
+				// A task that is merely slow (long input, race build, loaded machine) burns CPU meanwhile,
+				// a blocked one does not: as long as the process keeps computing, keep waiting.
+				if c := cpuTime(); c-cpu0 > 30*time.Millisecond && waited < 100 {
+					cpu0 = c
+					waited++
+					timer.Reset(300 * time.Millisecond)
+					goto wait
+				}
 				detached = true
 			}
 			if detached {
